@@ -42,7 +42,7 @@ CONSTANTS Trigs,        \* trigger ids
           TModes,       \* [Trigs -> SUBSET Modes]   _engine_types (None = all three)
           TReq,         \* [Trigs -> [kind: "all"|"tuple"|"dict", names, bymode]]  required_csets
           TSupp,        \* [Trigs -> BOOLEAN]        suppress_exceptions
-          TAct,         \* [Trigs -> [k: "none"|"read"|"replace"|"register", n: name, t: trigger]]  body
+          TAct,         \* [Trigs -> [k: "none"|"read"|"replace"|"register", n: [Modes -> name], t: trigger]]  body
           UserNames,    \* cset names a caller may add
           Plugins,      \* Seq(Trigs): default_plugins_triggers() in construction order
           StableSort, RegenPerHook, EndOnFailure   \* TRUE = the engine; FALSE = broken variants (vacuity guards)
@@ -197,9 +197,11 @@ Sorted(seq) == [k \in 1..Len(seq) |-> seq[CHOOSE i \in DOMAIN seq : Rank(seq, i)
 
 \* the body of trigger t (a stand-in for what real triggers do to the engine)
 DoAct(s, t) ==
-  LET a == TAct[t] IN
-  CASE a.k = "read" /\ s.src[a.n].def -> LET r == Lookup(s, a.n) IN [s |-> r.s, log |-> r.log]
-    [] a.k = "replace" /\ a.n \in s.pres -> ReplaceCset(s, a.n)
+  LET a == TAct[t]
+      n == a.n[s.mode]
+  IN
+  CASE a.k = "read" /\ s.src[n].def -> LET r == Lookup(s, n) IN [s |-> r.s, log |-> r.log]
+    [] a.k = "replace" /\ n \in s.pres -> ReplaceCset(s, n)
     [] a.k = "register" -> [s |-> Register(s, a.t).s, log |-> <<>>]
     [] OTHER -> [s |-> s, log |-> <<>>]
 
@@ -268,9 +270,9 @@ Notices(log, F) ==
 Asked(s, log) ==
   LET c == CalledSeq(log)
       direct == UNION {LET q == Req(c[k], s.mode) IN {q.names[j] : j \in DOMAIN q.names} : k \in DOMAIN c}
-                \cup {TAct[c[k]].n : k \in {j \in DOMAIN c : TAct[c[j]].k = "read"}}
+                \cup {TAct[c[k]].n[s.mode] : k \in {j \in DOMAIN c : TAct[c[j]].k = "read"}}
   IN ReachFrom(s, direct, direct)
-AskedOnly(s, log) == \A k \in DOMAIN log : log[k].k = "eval" => log[k].n \in Asked(s, log)
+AskedOnly(s, log) == LET A == Asked(s, log) IN \A k \in DOMAIN log : log[k].k = "eval" => log[k].n \in A
 OncePerRun(log) == \A i, j \in DOMAIN log : (log[i].k = "eval" /\ log[j].k = "eval" /\ log[i].n = log[j].n) => i = j
 \* invalidation: a cset that is not preserved is evaluated again in every hook before it is handed out
 ComputedThisRun(s, log) ==
@@ -423,5 +425,5 @@ WContent(c) == IF c.empty \/ c.src = "none" THEN "" ELSE c.data
 \* where the returned source lives: "source" = the fsobj's own, "fresh" = a new file in the tempspace
 WWhere(c)   == IF WSame(c) \/ WReuse(c) THEN "source" ELSE "fresh"
 \* the original data is left alone unless it is the thing being handed out
-WSourceKept(c) == c.src = "none" \/ WWhere(c) = "source"
+WMustKeep(c) == c.src # "none" /\ WWhere(c) = "fresh"
 =========================================================================
